@@ -2171,8 +2171,13 @@ def run(ck: Check):
         if a != b:
             all_findings.append((
                 'correspondence:client-recv',
-                f'_recv_handle_log_error: model `{b}` vs real `{a}` on '
-                f'`{line}`', {'sequence': line,
+                {'recv': '_recv_handle_log_error',
+                 'predrain': '_recv_log_error_until_empty',
+                 'sendrecv': 'Compiler._send_recv',
+                 'outgoing': 'ServerBase.send_outgoing'}.get(
+                     line.split()[0], line.split()[0])
+                + f': model `{b}` vs real `{a}` on `{line}`',
+                {'sequence': line,
                               'broken': 'correspondence client recv'}, False))
     ck.coverage['client_side'] = dict(cstats)
 
